@@ -676,6 +676,7 @@ type runOut struct {
 	hits  []hit
 	path  string // "" unless known (recovery / cachehit)
 	panic string
+	attr  [][]int // set by entries that change entries on the way: the attributes of each hit as they are *now*
 }
 
 // runEntry calls one public entry point. Cached / monitored entries return the answer of the second call (a hit when
@@ -753,6 +754,58 @@ func runEntry(c *corpusT, s scenario, q string) (out runOut, first *runOut) {
 			} else {
 				out.hits = append(out.hits, hit{nil, r.Score})
 			}
+		}
+		out.path = "cached"
+	case "cachededit": // a cached search; the entries it returned are edited in place so that the filter in force excludes them;
+		// the wrapper is told (UpdateDatabase with the very slice it serves); the same search again
+		db2, err := database.LoadDatabase(c.file)
+		if err != nil {
+			fatal("%v", err)
+		}
+		cdb := database.VerifNewCachedDatabase(db2, 50, 0)
+		before := cdb.SearchWithOptionsAndCache(q, o)
+		edited := map[*database.Command]bool{}
+		was := map[*database.Command]docInfo{}
+		byContent0 := map[string]int{}
+		for i := range c.db.Commands {
+			byContent0[contentKey(&c.db.Commands[i])] = i
+		}
+		for _, r := range before {
+			if d, ok := byContent0[contentKey(r.Command)]; ok {
+				was[r.Command] = c.info[d]
+			}
+			switch {
+			case !o.AllPlatforms:
+				r.Command.Platform = []string{"zzz-os"}
+				edited[r.Command] = true
+			case o.PipelineOnly:
+				r.Command.Pipeline = false
+				r.Command.Command = strings.NewReplacer("|", " ", "&&", " ", ">", " ", "<", " ").Replace(r.Command.Command)
+				r.Command.CommandLower = strings.ToLower(r.Command.Command)
+				edited[r.Command] = true
+			}
+		}
+		cdb.UpdateDatabase(cdb.Commands)
+		res := cdb.SearchWithOptionsAndCache(q, o)
+		byContent := map[string]*database.Command{}
+		for i := range c.db.Commands {
+			byContent[contentKey(&c.db.Commands[i])] = &c.db.Commands[i]
+		}
+		for _, r := range res {
+			if edited[r.Command] { // now a foreign-platform entry / no pipeline
+				out.hits = append(out.hits, hit{nil, r.Score})
+				di := was[r.Command]
+				if !o.AllPlatforms {
+					di.decls = []string{"zzz-os"} // (a recognised tool stays eligible through the tool rule: class 3)
+				} else {
+					di.pipe = false
+				}
+				out.attr = append(out.attr, []int{platClass(di, s.Plats), b2i(di.pipe), 1, 0})
+				continue
+			}
+			h := hit{byContent[contentKey(r.Command)], r.Score}
+			out.hits = append(out.hits, h)
+			out.attr = append(out.attr, nil)
 		}
 		out.path = "cached"
 	case "cli":
